@@ -6,6 +6,7 @@ import (
 	"context"
 	"encoding/json"
 	"fmt"
+	"strings"
 
 	"go.lsp.dev/protocol"
 
@@ -24,7 +25,12 @@ func VerifC08CompletionLong() { verifC08Completion(c08Thorough) }
 func VerifC08Inline()         { verifC08Inline(c08Quick) }
 func VerifC08InlineLong()     { verifC08Inline(c08Thorough) }
 
-const c08ClsComplStart = "completion-start-after-cursor"
+// Known classes: calculateTextEditRange derives the start of the edit from the structure of the line and never
+// clamps it to the cursor. The two shapes of G in which that start lies to the right of the cursor:
+const (
+	c08ClsComplKeyword = "c08-completion-start-inside-directive-keyword" // cursor inside the word "account " / "commodity "
+	c08ClsComplBlanks  = "c08-completion-start-after-amount-blanks"      // posting: cursor strictly inside the blanks that follow the quantity
+)
 
 // c08CursorValid: every line, every character 0..len that does not split a surrogate pair (case split).
 func c08CursorValid(d *c08Doc, from int) protocol.Position {
@@ -34,35 +40,88 @@ func c08CursorValid(d *c08Doc, from int) protocol.Position {
 	return protocol.Position{Line: uint32(line), Character: uint32(ch)}
 }
 
+// c08CursorOn: every valid character of one line.
+func c08CursorOn(d *c08Doc, line int) protocol.Position {
+	ch := zzverif.Choice("ch", d.lens[line]+1)
+	zzverif.Assume(!d.insidePair(line, uint32(ch)))
+	return protocol.Position{Line: uint32(line), Character: uint32(ch)}
+}
+
+// runeAt: rune index of the (valid) UTF-16 offset ch on the line.
+func (d *c08Doc) runeAt(line int, ch uint32) int {
+	for i, u := range d.u16[line] {
+		if uint32(u) == ch {
+			return i
+		}
+	}
+	return -1
+}
+
+// lineText: content of a line without its terminator (documents with concrete text only).
+func (d *c08Doc) lineText(line int) string {
+	return strings.TrimSuffix(strings.Split(d.text, "\n")[line], "\r")
+}
+
+// c08StartAfterCursor: the known class whose input shape the (line, cursor) has, and the start it produces ("" if none).
+func c08StartAfterCursor(d *c08Doc, pos protocol.Position) (string, uint32) {
+	line := int(pos.Line)
+	text := d.lineText(line)
+	for _, kw := range []string{"account ", "commodity "} {
+		if strings.HasPrefix(text, kw) && pos.Character < uint32(len(kw)) {
+			return c08ClsComplKeyword, uint32(len(kw))
+		}
+	}
+	// posting line; the cursor has a blank on both sides; the run of blanks it is in follows a digit and is not
+	// the gap after the account (the first run of two blanks after the indent)
+	if !strings.HasPrefix(text, "    ") && !strings.HasPrefix(text, "\t") {
+		return "", 0
+	}
+	bl := d.blank[line]
+	i := d.runeAt(line, pos.Character)
+	if i <= 0 || i >= len(bl) || !bl[i-1] || !bl[i] {
+		return "", 0
+	}
+	first := i
+	for first > 0 && bl[first-1] {
+		first--
+	}
+	if first == 0 {
+		return "", 0 // the indent
+	}
+	b := d.boff[line]
+	if c := text[b[first-1]]; c < '0' || c > '9' {
+		return "", 0
+	}
+	ind := d.nextNonBlank(line, 0)
+	for j := ind; j+1 < first; j++ {
+		if bl[j] && bl[j+1] {
+			// an earlier gap exists: the run under the cursor follows the amount
+			end := d.nextNonBlank(line, i)
+			if end < 0 {
+				end = len(bl)
+			}
+			return c08ClsComplBlanks, uint32(d.u16[line][end])
+		}
+	}
+	return "", 0
+}
+
 // c08EditRange: a completion edit replaces text that ends at the cursor and starts at or before it, on a character boundary.
-func c08EditRange(d *c08Doc, r protocol.Range, pos protocol.Position, what string) {
+func c08EditRange(d *c08Doc, r protocol.Range, pos protocol.Position, what string, classes bool) {
 	bad := r.End != pos || r.Start.Line != pos.Line || r.Start.Character > pos.Character || d.insidePair(int(pos.Line), r.Start.Character)
 	if bad && !zzverif.Engine() {
 		fmt.Printf("DUMP %s: range %d:%d-%d:%d cursor %d:%d\n%s\n", what, r.Start.Line, r.Start.Character, r.End.Line, r.End.Character, pos.Line, pos.Character, d.text)
 	}
 	zzverif.Assert(r.End == pos, what+": edit range does not end at the cursor")
 	zzverif.Assert(r.Start.Line == pos.Line, what+": edit range starts on another line")
-	if r.Start.Character > pos.Character && zzverif.Known(c08ClsComplStart) && c08CommodityStartAfter(d, r, pos) {
-		zzverif.Reach("kf:" + c08ClsComplStart)
-		return
+	if classes && r.Start.Character > pos.Character {
+		if cls, start := c08StartAfterCursor(d, pos); cls != "" && r.Start.Character == start && zzverif.Known(cls) {
+			zzverif.Reach("kf:" + cls)
+			return
+		}
 	}
 	zzverif.Assert(r.Start.Character <= pos.Character, what+": edit range starts after the cursor")
 	zzverif.Assert(!d.insidePair(int(pos.Line), r.Start.Character), what+": edit range start splits a surrogate pair")
-}
-
-// c08CommodityStartAfter: calculateTextEditRange derives the start from the structure of the line (first non-blank
-// after the amount, the line end, the end of a directive keyword) without clamping it to the cursor: the start is
-// such a structural position to the right of the cursor.
-func c08CommodityStartAfter(d *c08Doc, r protocol.Range, pos protocol.Position) bool {
-	line := int(pos.Line)
-	bl := d.blank[line]
-	// the start is a rune boundary that is the line end or a non-blank preceded by a blank or by an amount character
-	for i := 0; i <= len(bl); i++ {
-		if uint32(d.u16[line][i]) == r.Start.Character {
-			return i == len(bl) || !bl[i]
-		}
-	}
-	return false
 }
 
 func verifC08Completion(tier int) {
@@ -70,22 +129,33 @@ func verifC08Completion(tier int) {
 	if tier == c08Quick {
 		// quick tier: the shapes that change what precedes or follows the cursor on a posting, header or directive line
 		L := c08NDev - 1
-		c = c08ChooseList([]int{0, 3, 5, 6, 7, 12, 13, 14, 15, 17, 18, 19, 20, 21, 22, 23, 25, 26, 27, 29, 30, 32, 37, L + 3, L + 7, L + 9}, 2)
+		c = c08ChooseList([]int{0, 3, 5, 6, 7, 12, 13, 14, 15, 17, 18, 19, 20, 21, 22, 23, 25, 26, 27, 29, 30, 32, 37, L + 3, L + 7, L + 9,
+			19030 /* $1, two blanks, comment */}, 2)
 	} else {
 		c = c08Choose(tier, 0)
 	}
 	c.o.concrete = 1 // ranking and fuzzy matching would fork on symbolic letters; the edit range does not depend on them
-	w := c08Open(c)
+	w := c08Prepare(c)
 	d := w.doc()
-	pos := c08CursorValid(d, 0)
+	var pos protocol.Position
+	if c.line >= 0 {
+		pos = c08CursorOn(d, c.line) // thorough tier, two deviations on one line of transaction 1: every cursor of that line
+	} else {
+		pos = c08CursorValid(d, 0)
+	}
 	params := &protocol.CompletionParams{TextDocumentPositionParams: w.tdp(pos)}
 	nt := 2
 	if tier == c08Thorough {
 		nt = 4
 	}
 	if t := zzverif.Choice("trigger", nt); t > 0 {
-		params.Context = &protocol.CompletionContext{TriggerKind: protocol.CompletionTriggerKindTriggerCharacter, TriggerCharacter: []string{"@", ":", "="}[t-1]}
+		tc := []string{"@", ":", "="}[t-1]
+		// LSP: a trigger character is reported when typing it opened the completion, so it is the character before the cursor
+		i := d.runeAt(int(pos.Line), pos.Character)
+		zzverif.Assume(i > 0 && d.lineText(int(pos.Line))[d.boff[pos.Line][i-1]] == tc[0])
+		params.Context = &protocol.CompletionContext{TriggerKind: protocol.CompletionTriggerKindTriggerCharacter, TriggerCharacter: tc}
 	}
+	w.open()
 	res, err := w.s.Completion(context.Background(), params)
 	zzverif.Assert(err == nil && res != nil, "completion: error")
 	n := 0
@@ -95,7 +165,7 @@ func verifC08Completion(tier int) {
 			continue
 		}
 		if n == 0 {
-			c08EditRange(d, te.Range, pos, "completion")
+			c08EditRange(d, te.Range, pos, "completion", true)
 		} else {
 			zzverif.Assert(te.Range == res.Items[0].TextEdit.Range, "completion: items carry different edit ranges")
 		}
@@ -109,19 +179,21 @@ func verifC08Completion(tier int) {
 }
 
 // inline completion: a document with a transaction, then a header with the same payee and a line of 0..3 blanks below it.
+// quick: one shape deviation of transaction 1 (eight that change the header, the payee or the line ends), at most one
+// wide character in the payee or the first account; cursor on the new header, the line below it and the last line.
+// thorough: a second deviation among those of the header line and the document-wide ones, one more site (the quoted
+// commodity), the blank separator line as well.
 func verifC08Inline(tier int) {
 	o := &c08Opt{hws: 1, gap: 2, site: -1, site2: -1, concrete: 1}
-	c := &c08Case{o: o}
-	nd := 8
-	if tier == c08Thorough {
-		nd = c08NDev
-	}
-	c08Dev(o, []int{0, 3, 5, 6, 7, 22, 37, 38}[zzverif.Choice("dev", 8)%nd])
-	if tier == c08Thorough {
-		c08Dev(o, zzverif.Choice("dev2", c08NDev))
-	}
+	c := &c08Case{o: o, line: -1}
+	d1 := []int{0, 3, 5, 6, 7, 22, 37, 38}[zzverif.Choice("dev", 8)]
+	c08Dev(o, d1)
 	ns := 2
 	if tier == c08Thorough {
+		hdr := []int{0, 1, 2, 3, 4, 5, 6, 7, 8, 9, 10, 11, 39, 37, 38}
+		d2 := hdr[zzverif.Choice("dev2", len(hdr))]
+		zzverif.Assume(d2 == 0 || (d2 != d1 && c08DevField(d1) != c08DevField(d2)))
+		c08Dev(o, d2)
 		ns = 4
 	}
 	if k := zzverif.Choice("site", ns); k > 0 {
@@ -131,9 +203,9 @@ func verifC08Inline(tier int) {
 	c.items = []int{c08IT1, c08IBlank, c08IHeader1, c08IBlanks0 + zzverif.Choice("blanks", 4)}
 	w := c08Open(c)
 	d := w.doc()
-	from := 0
-	if tier == c08Quick {
-		from = len(d.lens) - 3 // quick tier: the new header, the blank line below it, the last line
+	from := len(d.lens) - 3 // the new header, the blank line below it, the last line
+	if tier == c08Thorough {
+		from-- // and the blank line that separates the transactions
 	}
 	pos := c08CursorValid(d, from)
 	raw := `{"textDocument":{"uri":"` + string(w.uri()) + `"},"position":{"line":` + zzverif.Itoa(int(pos.Line)) + `,"character":` + zzverif.Itoa(int(pos.Character)) + `},"context":{"triggerKind":1}}`
@@ -142,7 +214,7 @@ func verifC08Inline(tier int) {
 	for _, it := range res.Items {
 		zzverif.Assert(it.Range != nil, "inlineCompletion: item without range")
 		if it.Range != nil {
-			c08EditRange(d, *it.Range, pos, "inlineCompletion")
+			c08EditRange(d, *it.Range, pos, "inlineCompletion", false)
 			zzverif.Reach("C08.inline.range")
 		}
 	}
